@@ -287,8 +287,9 @@ def rule_handlers(ctx):
     flow = Flow(f)
     look = [c for c in calls_in(f.node, "get") if norm(c.func) == "self.default_handler.get" and c.args]
     look += [n.slice for n in walk_no_nested(f.node) if isinstance(n, ast.Subscript) and norm(n.value) == "self.default_handler"]
-    if len(look) != 1:
-        raise AnalysisError("FileSet.__init__: expected one look-up in self.default_handler, found %d" % len(look))
+    keys_ = {norm(l_.args[0] if isinstance(l_, ast.Call) else l_) for l_ in look}
+    if len(keys_) != 1:
+        raise AnalysisError("FileSet.__init__: expected one look-up key in self.default_handler, found %d" % len(keys_))
     keyx = look[0].args[0] if isinstance(look[0], ast.Call) else look[0]
     tests = [c for c in calls_in(f.node, "is_compression_format")]
     if len(tests) != 1:
